@@ -22,7 +22,7 @@ ATOMS = ['a', ' ', '{', '}', '[', ']', '$', '$$', '\\', '\\\\', '\\begin{e}', '\
          '\\item', '%', '\\(', '\\)', '\\[', '\\]', '\\hidden{q}', '\\end{verbatim}', '#', '~', '\\x{', '\\begin{itemize}',
          '\\end', '\t', '\x0c', '\u2028', '\x85', '\x0b',
          '\\lstnewenvironment{e}{}{}', '\\DefineVerbatimEnvironment{itemize}', '\\newenvironment{e}', '\\begin{document}',
-         '\\makeatletter', '\\catcode`\\@=11', '\\verb|', '\\iffalse', '\\endinput', '\\begin{comment}'] + ['\\' + n for n in G.EXTRA_NAMES]
+         '20', 'af', 'EE}', '\\makeatletter', '\\catcode`\\@=11', '\\verb|', '\\iffalse', '\\endinput', '\\begin{comment}'] + ['\\' + n for n in G.EXTRA_NAMES]
 CONTEXTS = [
     ('top', 'a ', 'z'),
     ('group', 'p{q ', 'r}s'),
@@ -44,7 +44,7 @@ CONTEXTS = [
     ('before-at-names', 'a ', 'z \\p@q{y} w@x \\@r{s} \\fi \\end{comment} |v| t'),
     ('cmd-then-comment-then-group', 'p \\o', '{a} s'),
 ]
-LEADS = ['', 'w ', '\\c', '\\c[o]{m}', 'w\\%']
+LEADS = ['', 'w ', '\\c', '\\c[o]{m}', 'w\\%', 'see http://a.b/c', 'x=1&y']
 DANGEROUS = ('{', '}', '[', ']', '$', '\\end', '\\begin', '\\item', '\\)', '\\]', '\\(', '\\[')
 _REF_CACHE = {}
 
@@ -146,7 +146,8 @@ def shard_exhaustive(ctx, shard):
                 count += 1
                 if count % nshard != idx:
                     continue
-                for lead in LEADS:
+                # the longest payloads: the empty lead and one other lead in rotation; shorter ones: every lead
+                for lead in (LEADS if d < L else ['', LEADS[1 + count % (len(LEADS) - 1)]]):
                     for k in ((0, 2) if d == L else (0, 2, 4)):
                         total += 1
                         try:
